@@ -9,14 +9,27 @@
       the following token is not one the generics hack would swallow;
     - [C18_expr_roundtrip], [C18_attrs_roundtrip]: the same for expressions and for attribute lists
       (names, order and arguments preserved).
-    NOT MODELLED (hence partial): items, functions, fields, enums, impl/extern/use/backend statements
-    and the module loop -- and, by nature, lexing (whitespace, comments, literal spellings, doc
-    comments becoming doc attributes) and error positions.  Those are covered by the correspondence
-    of this property: abstract modules over the full grammar are printed with randomised legal
-    formatting and parsed by the REAL parser, which must return exactly the generated module; the
-    Coq parser and the real parser are run on the same token streams for types and attribute lists. *)
+    - [C18_module_roundtrip] (SyntaxItems.v / SyntaxItemsLemmas.v: printers and parsers for functions,
+      fields, vftable blocks, type and enum definitions, impl blocks, extern types and values, use
+      paths, backend blocks in all forms, module attributes and the item loop, each written after the
+      corresponding function of src/parser/mod.rs): [parse_module (print_module m) = Some m] for EVERY
+      well-formed module [m] -- any number of items of every kind, any nesting, any attribute lists;
+      [C18_module_roundtrip_any_order]: the same for any interleaving of the item kinds;
+      [C18_wf_decidable]: the precondition is the executable [wf_module_b] (identifiers are not
+      keywords, literals in range, types at most 64 deep -- the real parser's nesting limit --, a
+      private field is not called [vftable], backend strings trimmed);
+      [C18_module_eqb_correct]: the boolean equality used to compare the Coq parser's module with
+      the real parser's is equality.
+    NOT MODELLED, by nature: lexing (whitespace, comments, literal spellings, doc comments becoming
+    doc attributes -- the token stream is the real lexer's) and error positions.  The theorems are
+    about the printer's canonical spelling; other legal spellings are covered by the correspondence
+    of this property: (A) abstract modules over the full grammar are printed with randomised legal
+    formatting and parsed by the REAL parser, which must return exactly the generated module; (B)
+    the Coq parsers and the real parser are run on the same token streams -- types, attribute
+    lists, and (C) whole module texts, valid and token-damaged -- and must agree on acceptance and on
+    the module. *)
 From Coq Require Import List NArith ZArith Bool String.
-From PyxisModel Require Import Base Grammar Syntax SyntaxLemmas.
+From PyxisModel Require Import Base Grammar Syntax SyntaxLemmas SyntaxItems ModuleEq SyntaxItemsLemmas.
 Import ListNotations.
 
 Theorem C18_type_roundtrip : forall t fuel rest,
@@ -45,3 +58,29 @@ Example C18_example :
     = Some (GIdent "Shared<Foo>", [KPunct ";"])%string /\
   parse_type 8 [KPunct "*"; KId "volatile"; KId "u8"]%string = None.
 Proof. vm_compute. repeat split. Qed.
+
+(** ** the whole module grammar *)
+Theorem C18_module_roundtrip : forall m, wf_module m -> parse_module (print_module m) = Some m.
+Proof. exact parse_print_module. Qed.
+Print Assumptions C18_module_roundtrip.
+
+Theorem C18_module_roundtrip_any_order : forall attrs (items : list item),
+  Forall wf_attr attrs -> Forall wf_item items ->
+  parse_module (print_mod_attrs attrs ++ flat_map print_item items)
+  = Some (set_attrs attrs (fold_right add_item empty_module items)).
+Proof. exact parse_print_module_any_order. Qed.
+Print Assumptions C18_module_roundtrip_any_order.
+
+Theorem C18_wf_decidable : forall m, wf_module_b m = true -> wf_module m.
+Proof. exact wf_module_b_sound. Qed.
+Print Assumptions C18_wf_decidable.
+
+Theorem C18_module_eqb_correct : forall a b, gmodule_eqb a b = true <-> a = b.
+Proof. exact gmodule_eqb_spec. Qed.
+Print Assumptions C18_module_eqb_correct.
+
+(** non-vacuity: a module with every kind of item is well formed and round-trips (by the theorem and
+    by computation) *)
+Example C18_module_example :
+  wf_module Example.m /\ parse_module (print_module Example.m) = Some Example.m.
+Proof. split; [exact Example.m_wf | exact Example.m_roundtrip]. Qed.
